@@ -12,7 +12,7 @@
      lq_of4 q                   a document quad as `den` reports it
      known_C13_*                the decidable classes of the known findings              (Classes.v) *)
 Require Import KV.Codec13.Model KV.Codec13.Spec KV.Codec13.Wf KV.Codec13.WfTtl KV.Codec13.Classes KV.Codec13.Inv KV.Codec13.Witness.
-Require Import KV.Codec13.ChunkProofs KV.Codec13.NtProofs KV.Codec13.N3Proofs KV.Codec13.TtlProofs KV.Codec13.AgreeProofs KV.Codec13.IdsProofs KV.Codec13.RefuteProofs.
+Require Import KV.Codec13.ChunkProofs KV.Codec13.NtProofs KV.Codec13.N3Proofs KV.Codec13.TtlProofs KV.Codec13.TtlListProofs KV.Codec13.AgreeProofs KV.Codec13.IdsProofs KV.Codec13.RefuteProofs.
 
 (* (1) Splitting the document into chunks of ANY size n >= 1, parsing each chunk on its own (one rayon
    task per chunk) and concatenating the results in chunk order gives exactly the per-line parse of
@@ -136,17 +136,17 @@ Theorem C13_turtle_tagged_refuted :
 Proof. exact ttl_tagged_refuted. Qed.
 Print Assumptions C13_turtle_tagged_refuted.
 
-(* Turtle, one statement per line (IRIs that are http(s):// or colon-free, prefixed names, blank nodes with
+(* Turtle, one statement per line, written `s p o .` with any white space or as a predicate/object list
+   `s p o , o ; p o .` with single blanks (IRIs that are http(s):// or colon-free, prefixed names, blank nodes with
    alphanumeric labels, plain literals whose value has no ':' and does not start with '<' or a quote; @prefix lines,
    comments, blank lines), into EVERY prior database satisfying the invariant whose prefix table is sane
    (alphanumeric names, IRIs not starting with '<').  Prefixes declared by earlier loads stay in scope in
    parse_turtle, so the document's quads are read under `d_pref x` (= triples_of doc when that table is empty).
-   `;`/`,` lists and tagged literals: modelled + correspondence only (tagged literals are finding
-   C13-turtle-tagged-literal). *)
+   Tagged literals are finding C13-turtle-tagged-literal; quoted triples: modelled + correspondence only. *)
 Theorem C13_turtle :
   forall (doc : list item) (x : db),
     wf_doc_ttl doc = true -> db_ok x -> pref_ok (d_pref x) ->
-    next_id (d_dict x) + 4 * N.of_nat (length doc) <= QBIT ->
+    next_id (d_dict x) + 4 * N.of_nat (length (quads_from (d_pref x) doc)) <= QBIT ->
     db_ok (load_ttl (render_doc doc) x) /\
     forall lq, In lq (den (load_ttl (render_doc doc) x)) <-> In lq (den x) \/ In lq (map lq_of4 (quads_from (d_pref x) doc)).
 Proof. exact ttl_main. Qed.
@@ -199,8 +199,9 @@ Proof. repeat split; vm_compute; reflexivity. Qed.
 
 Definition ex_ttl : list item :=
   [IPrefix nEX iE; IStmt P0 (TPname nEX [115]) (TPname nEX [112]) (TLit [LPlain 118; LEsc 34; LPlain 32; LPlain 119] SNone) None;
-   IStmt P0 (TBnode [98;49]) (TIri iB) (TIri iC) None; IComment [] [99]].
+   IStmt P0 (TBnode [98;49]) (TIri iB) (TIri iC) None; IComment [] [99];
+   IList (TPname nEX [115]) [(TPname nEX [112], [TIri iA; TPname nEX [111]]); (TIri iB, [TLit [LPlain 120] SNone])]].
 Example C13_example_turtle :
-  wf_doc_ttl ex_ttl = true /\ length (den (load_ttl (render_doc ex_ttl) wa_db)) = 3%nat.
+  wf_doc_ttl ex_ttl = true /\ length (den (load_ttl (render_doc ex_ttl) wa_db)) = 6%nat.
 Proof. split; vm_compute; reflexivity. Qed.
 
